@@ -9,7 +9,7 @@
    S s fixed stripped gated fast q dash block
        -> agree o g g_nested g_cr g_tail
    P s fixed masked stripped out out2 show
-       -> agree o o2 g
+       -> agree o o2 g g2
    F s masked unmasked contains nmasks (ph orig)*
        -> agree o g
    D s strict ok nvals val* ncols col*
@@ -67,7 +67,7 @@ let () =
          | "P" ->
              let c = { pc_s = h 1; pc_fixed = b f.(2); pc_masked = h 3; pc_stripped = h 4; pc_out = h 5;
                        pc_out2 = h 6; pc_show = h 7 } in
-             [ pipe_case_agrees c; pipe_oracle c; pipe_oracle2 c; pipe_guard c ]
+             [ pipe_case_agrees c; pipe_oracle c; pipe_oracle2 c; pipe_guard c; pipe_guard2 c ]
          | "F" ->
              let nm = int_of_string f.(5) in
              let masks = List.init nm (fun k -> (h (6 + 2 * k), h (7 + 2 * k))) in
